@@ -666,7 +666,7 @@ Section MasksProofs.
     assert (HIn : forall g iv ist, In (g, iv, ist) (sel_triples (local_grads lay pg) 0)
                                    <-> iv = ist /\ nth_error (local_grads lay pg) ist = Some (Some g)).
     { intros g iv ist. rewrite sel_triples_In, Nat.sub_0_r. split; [intros (H1 & _ & H3)|intros (H1 & H3)]; repeat split; try assumption; lia. }
-    repeat split; try assumption; try (apply HIn; assumption).
+    split; [exact Hd|]. split; [exact Hm|]. split; [exact Hz|]. split; [exact E|]. split; [exact Hsnd|]. split; [|exact HIn].
     rewrite <- Hsnd. apply map_ext_in. intros [[g iv] ist] Hin. apply HIn in Hin. cbn [fst snd]. tauto.
   Qed.
 
@@ -701,8 +701,9 @@ Section MasksProofs.
     rewrite E in E1. injection E1 as <-.
     unfold observable, spec_step in Hobs. injection Hobs as Hstep _ _.
     unfold local_selector. rewrite existsb_map_is_some.
-    destruct (existsb is_some (local_grads lay pg)); rewrite Hstep; split; try lia; try discriminate; try reflexivity.
-    split; [lia|discriminate].
+    destruct (existsb is_some (local_grads lay pg)); rewrite Hstep.
+    - split; [split; [lia|discriminate]|reflexivity].
+    - split; [split; reflexivity|discriminate].
   Qed.
 
   (* the new state and value of a present block are bstep of its OWN state, value and gradient at the
@@ -742,21 +743,36 @@ Section MasksProofs.
     nth_error (local_grads lay pg1) i = nth_error (local_grads lay pg2) i
     /\ existsb is_some (local_grads lay pg1) = existsb is_some (local_grads lay pg2).
 
+  Lemma spec_step_noninterference lay i pg1 pg2 t vals1 sts1 vals2 sts2 :
+    same_for_block lay i pg1 pg2 ->
+    nth_error vals1 i = nth_error vals2 i -> nth_error sts1 i = nth_error sts2 i ->
+    forall t1 v1 s1 t2 v2 s2,
+    spec_step bstep lay (t, vals1, sts1) pg1 = (t1, v1, s1) ->
+    spec_step bstep lay (t, vals2, sts2) pg2 = (t2, v2, s2) ->
+    t1 = t2 /\ nth_error v1 i = nth_error v2 i /\ nth_error s1 i = nth_error s2 i.
+  Proof.
+    intros [Hg Hany] Hv Hs t1 v1 s1 t2 v2 s2 E1 E2.
+    unfold spec_step in E1, E2. rewrite <- Hany in E2.
+    injection E1 as <- <- <-. injection E2 as <- <- <-.
+    split; [reflexivity|].
+    rewrite !nth_error_map, !nth_error_blockwise, <- Hg, <- Hv, <- Hs. split; reflexivity.
+  Qed.
+
   Lemma spec_run_noninterference lay i : forall h1 h2, Forall2 (same_for_block lay i) h1 h2 ->
     forall t vals1 sts1 vals2 sts2,
     nth_error vals1 i = nth_error vals2 i -> nth_error sts1 i = nth_error sts2 i ->
-    let r1 := spec_run bstep lay (t, vals1, sts1) h1 in
-    let r2 := spec_run bstep lay (t, vals2, sts2) h2 in
-    fst (fst r1) = fst (fst r2)
-    /\ nth_error (snd (fst r1)) i = nth_error (snd (fst r2)) i
-    /\ nth_error (snd r1) i = nth_error (snd r2) i.
+    forall t1 v1 s1 t2 v2 s2,
+    spec_run bstep lay (t, vals1, sts1) h1 = (t1, v1, s1) ->
+    spec_run bstep lay (t, vals2, sts2) h2 = (t2, v2, s2) ->
+    t1 = t2 /\ nth_error v1 i = nth_error v2 i /\ nth_error s1 i = nth_error s2 i.
   Proof.
-    induction 1 as [|pg1 pg2 h1 h2 [Hg Hany] _ IH]; intros t vals1 sts1 vals2 sts2 Hv Hs.
-    - cbn. repeat split; assumption.
-    - unfold spec_run. cbn [fold_left]. unfold spec_step at 2 4. rewrite <- Hany.
-      apply IH.
-      + rewrite !nth_error_map, !nth_error_blockwise, <- Hg, <- Hv, <- Hs. reflexivity.
-      + rewrite !nth_error_map, !nth_error_blockwise, <- Hg, <- Hv, <- Hs. reflexivity.
+    induction 1 as [|pg1 pg2 h1 h2 Hsame _ IH]; intros t vals1 sts1 vals2 sts2 Hv Hs t1 v1 s1 t2 v2 s2 E1 E2.
+    - cbn in E1, E2. injection E1 as <- <- <-. injection E2 as <- <- <-. repeat split; assumption.
+    - unfold spec_run in E1, E2. cbn [fold_left] in E1, E2.
+      destruct (spec_step bstep lay (t, vals1, sts1) pg1) as [[ta va] sa] eqn:Ea.
+      destruct (spec_step bstep lay (t, vals2, sts2) pg2) as [[tb vb] sb] eqn:Eb.
+      destruct (spec_step_noninterference lay i pg1 pg2 t vals1 sts1 vals2 sts2 Hsame Hv Hs _ _ _ _ _ _ Ea Eb) as (Ht & Hv' & Hs').
+      subst tb. exact (IH ta va sa vb sb Hv' Hs' _ _ _ _ _ _ E1 E2).
   Qed.
 
   (* Whatever the OTHER blocks hold and receive, block i ends with the same value and state, provided its own
@@ -775,8 +791,8 @@ Section MasksProofs.
     destruct (group_run_eq_blockwise lay vals1 sts1 h1 Hlay Hv1 Hs1 Hh1) as (s1' & E1' & O1).
     destruct (group_run_eq_blockwise lay vals2 sts2 h2 Hlay Hv2 Hs2 Hh2) as (s2' & E2' & O2).
     rewrite E1 in E1'. injection E1' as <-. rewrite E2 in E2'. injection E2' as <-.
-    pose proof (spec_run_noninterference lay i h1 h2 Hsame 0%Z vals1 sts1 vals2 sts2 Hv Hs) as H.
-    cbv zeta in H. rewrite <- O1, <- O2 in H. exact H.
+    unfold observable in O1, O2. symmetry in O1, O2.
+    exact (spec_run_noninterference lay i h1 h2 Hsame 0%Z vals1 sts1 vals2 sts2 Hv Hs _ _ _ _ _ _ O1 O2).
   Qed.
 End MasksProofs.
 
